@@ -69,7 +69,7 @@ PROPS = {
     },
     "C01": {
         "props_module": "LayerModel.Props.C01",
-        "families": [("mode", 4000, 150000), ("alloc", 3000, 100000)],
+        "families": [("mode", 4000, 150000), ("alloc", 3000, 100000), ("allocrep", 1500, 50000)],
         "gen": ["facts", "formulas"],
         "rule": "mode: rounds in which two or more values tie for the maximal weight, each executed 24 times in one process (Go re-randomises map iteration per range); alloc: allocations with >= 2 reporters (map -> sorted slice); distinct = distinct input lines",
         "level_text": "Theorems: every map-range loop and every wall-clock/goroutine/randomness use in the consensus packages is in a classified table that is regenerated from the source by a go/types-based extractor on every run (a new site breaks the rfl obligation); for each classified site the result is proved independent of iteration order (reward allocation: sorting erases the order; power difference: commutative sum; weighted mode: after the fix the scan runs over the reports and returns the first value of maximal weight; counterexample theorem for map-order iteration). Tie: repeated in-process execution of the real WeightedMode and AllocateRewards compared with the deterministic Lean model; (chain-level replay differential on two app instances is part of C02's chain profile).",
